@@ -105,6 +105,8 @@ func checkOptionalMisuse(c *run.Ctx, id string, e *ref.E, env *bridge.Env, why s
 
 func runC16(c *run.Ctx) {
 	envUpdatedInPlace(c)
+	nestedStructNilness(c)
+	deepOptionalMisuse(c)
 	g0 := &ref.Gen{R: c.Rng("env", 0)}
 	env0 := c16Env(g0)
 	// 1. every built-in, every parameter position: the optional of the required type
@@ -411,6 +413,164 @@ func envUpdatedInPlace(c *run.Ctx) {
 	}
 }
 
+type c16In struct {
+	P *float64
+	Q []float64
+}
+
+type c16Host struct {
+	N  float64
+	S  string
+	In c16In
+}
+
+// nestedStructNilness: a struct host whose own fields can never be nil but
+// which embeds, by value, a struct with a pointer field: the field is a number
+// when present and an optional when absent, call after call, whatever the
+// process converted before.
+func nestedStructNilness(c *run.Ctx) {
+	type call struct {
+		src     string
+		present bool
+	}
+	progs := []struct {
+		src            string
+		okPres, okAbs  bool
+		valPres, valAb float64
+	}{
+		{"In.P + N", true, false, 12, 0},
+		{"get(In.P, 7)", false, true, 0, 7},
+		{"In.P * 2", true, false, 4, 0},
+		{"get(In.P, N) + len(In.Q)", false, true, 0, 10},
+		{"[In.P, N][0]", true, false, 2, 0},
+		{"len(S) + len(In.Q)", true, true, 1, 1},
+	}
+	n := 0
+	for pi := range progs {
+		for start := 0; start < 2; start++ {
+			for mode := 0; mode < 3; mode++ {
+				n++
+				if !c.Mine(n) {
+					continue
+				}
+				pi, start, mode := pi, start, mode
+				c.Case(fmt.Sprintf("nested-struct-nilness/%d/%d/%d", pi, start, mode), func() {
+					ex := yae.NewExpr()
+					if mode == 2 {
+						ex.UseClosureCompiler()
+					}
+					for round := 0; round < 6; round++ {
+						present := (round+start)%2 == 0
+						for _, k := range []int{pi, (pi + 1 + round) % len(progs)} {
+							p := progs[k]
+							two := 2.0
+							h := c16Host{N: 10, S: "s", In: c16In{Q: []float64{}}}
+							if present {
+								h.In.P = &two
+							}
+							var host interface{} = h
+							if round%3 == 2 {
+								host = &h
+							}
+							c.Count("optional_misuse_programs", 1)
+							what := fmt.Sprintf("%q over a struct host whose nested pointer field is %s (call %d in this process order, mode %d)", p.src, map[bool]string{true: "present", false: "absent"}[present], round+1, mode)
+							var v *val.Val
+							var err error
+							func() {
+								defer func() {
+									if r := recover(); r != nil {
+										err = fmt.Errorf("panic: %v", r)
+									}
+								}()
+								if mode == 0 {
+									v, err = yae.Eval(p.src, host)
+									return
+								}
+								var cl yae.Callable
+								if cl, err = ex.Compile(p.src, host); err == nil {
+									v, err = cl(host)
+								}
+							}()
+							wantOK, wantV := p.okPres, p.valPres
+							if !present {
+								wantOK, wantV = p.okAbs, p.valAb
+							}
+							if wantOK != (err == nil) {
+								if err == nil {
+									c.Violation("optional-accepted", fmt.Sprintf("accepted (value %s): %s", safeStr(v), what), nil)
+								} else {
+									c.Violation("optional-host-data", fmt.Sprintf("refused (%v): %s", err, what), nil)
+								}
+								return
+							}
+							if err == nil && (v.Type.Kind != types.KNum || v.Num().V != wantV) {
+								c.Violation("optional-value", fmt.Sprintf("%s yields %s; expected %v", what, safeStr(v), wantV), nil)
+								return
+							}
+						}
+					}
+					c.Distinct(fmt.Sprintf("nested-struct-nilness/%d/%d/%d", pi, start, mode))
+				})
+			}
+		}
+	}
+}
+
+// deepOptionalMisuse: the optional sits below d list / map / object levels of
+// an otherwise identical type, for every d up to 70.
+func deepOptionalMisuse(c *run.Ctx) {
+	for d := 1; d <= 70; d++ {
+		if !c.Mine(d) || (c.Tier == "quick" && d > 12 && d%4 != 1 && (d < 44 || d > 52)) {
+			continue
+		}
+		d := d
+		c.Case(fmt.Sprintf("deep-optional/%d", d), func() {
+			wrapT := func(t *ref.Ty, k int) *ref.Ty {
+				switch k % 3 {
+				case 0:
+					return ref.TList(t)
+				case 1:
+					return ref.TMap(ref.TStr, t)
+				}
+				return ref.TObj(ref.F("f", t))
+			}
+			wrapV := func(v *ref.V, k int) *ref.V {
+				switch k % 3 {
+				case 0:
+					return ref.VList(v.T, v)
+				case 1:
+					return ref.VMap(ref.TStr, v.T, ref.KV{K: ref.VStr("k"), V: v})
+				}
+				return ref.VObj(ref.TObj(ref.F("f", v.T)), v)
+			}
+			for style := 0; style < 2; style++ {
+				plain, opt := ref.VNum(1), ref.VJust(ref.TNum, ref.VNum(1))
+				for k := 0; k < d; k++ {
+					kk := k
+					if style == 0 {
+						kk = 0 // lists only
+					}
+					plain, opt = wrapV(plain, kk), wrapV(opt, kk)
+					_ = wrapT
+				}
+				env := bridge.NewEnv()
+				env.Put("x", plain)
+				env.Put("y", opt)
+				env.Put("b", ref.VBool(true))
+				X, Y := func() *ref.E { return ref.Ident("x") }, func() *ref.E { return ref.Ident("y") }
+				progs := []*ref.E{
+					ref.List(X(), Y()), ref.Call("if", ref.Ident("b"), X(), Y()), ref.CallF(ref.FTernary, "if", ref.Ident("b"), Y(), X()),
+					ref.CallF(ref.FInfix, "==", X(), Y()), ref.Call("get", ref.List(X()), ref.Num("0", 0), Y()),
+					ref.Map([]*ref.E{ref.Str("p"), ref.Str("q")}, []*ref.E{Y(), X()}),
+				}
+				for pi, e := range progs {
+					checkOptionalMisuse(c, fmt.Sprintf("deep-optional/%d/%d/%d", d, style, pi), e, env, fmt.Sprintf("a type with the optional %d levels down meets the same type without it", d))
+				}
+			}
+		})
+	}
+}
+
 // untaggedPointers: nil-ness of an untagged pointer decides between T and
 // maybe[T]; absence must never be read as a T.
 func untaggedPointers(c *run.Ctx) {
@@ -514,7 +674,7 @@ func init() {
 	run.Register(&run.Spec{
 		ID: "C16", Run: runC16, Level: "exploration",
 		Rule: "(1) every built-in / operator x every parameter position whose type is not a bare type variable: the call with that argument replaced by an optional of exactly the required type, in call / infix / prefix / method / ternary form (exhaustive over the function table); (2) 21 hand-listed misuse shapes (member / subscript on optionals, optional as index or key, optional fields nested in objects / list elements in arithmetic, == on optionals, optional mixed with plain in lists / branches, defaults of the wrong type, nested optionals): all must be refused at the type-check stage; " +
-			"(3) random programs over environments with present / absent optionals as variables and nested in objects, lists and maps, forced get(optional, default) consumptions, run on 4 back ends from raw environments and through yae.Eval over reflection-built structs with nil / non-nil pointers, slices and maps: never an internal fault, value == reference evaluator; (4) host slices of structs with untagged pointer fields in every presence pattern and one Callable invoked with present / absent values alternately: an absent value is never read as a value of the underlying type. (5) one engine and one *types.Env updated in place so that a variable alternates between T and maybe[T], the same ten texts recompiled after every update on three back ends: acceptance follows the environment of that moment. distinct = distinct source",
+			"(3) random programs over environments with present / absent optionals as variables and nested in objects, lists and maps, forced get(optional, default) consumptions, run on 4 back ends from raw environments and through yae.Eval over reflection-built structs with nil / non-nil pointers, slices and maps: never an internal fault, value == reference evaluator; (4) host slices of structs with untagged pointer fields in every presence pattern and one Callable invoked with present / absent values alternately: an absent value is never read as a value of the underlying type. (6) a struct host embedding by value a struct with a pointer field, present / absent alternately through Eval and two engines; (7) the optional below 1..70 list / map / object levels of an otherwise identical type; (5) one engine and one *types.Env updated in place so that a variable alternates between T and maybe[T], the same ten texts recompiled after every update on three back ends: acceptance follows the environment of that moment. distinct = distinct source",
 		Assume:    []string{"parameters that are bare type variables (string, print, if branches, list elements, fst ...) accept optionals by design; the reference checker decides there"},
 		MinEvents: 1000, EventKey: "optional_programs",
 	})
